@@ -105,8 +105,21 @@ def run(model, rep, tier):
     init = mc.methods.get('__init__')
     if E is None or init is None:
         raise AnalysisError('anchor vanished: MonteCarloSampler.E / __init__')
-    ok = pattern.has(E, 'for _N_c, _N_v in zip(self.clustercount[:self.Nenergy], self.interactvalue[:self.Nenergy]):\n'
-                        '    if _N_c == 0:\n        _N_E += _N_v')
+    # one loop over the energy range pairing count and value; the value is added (``+=`` or spelled out) exactly under the
+    # condition ``count == 0`` -- whether written as a nested if or as a guard with continue
+    from ._common import conditions_at, update_of
+    ok = False
+    for lp in [x for x in walk_local(E) if isinstance(x, ast.For)]:
+        if unparse(lp.iter) != 'zip(self.clustercount[:self.Nenergy], self.interactvalue[:self.Nenergy])' \
+                or not (isinstance(lp.target, ast.Tuple) and len(lp.target.elts) == 2):
+            continue
+        c_, v_ = [unparse(t) for t in lp.target.elts]
+        ups = [(st, update_of(st)) for st in ast.walk(lp) if isinstance(st, (ast.Assign, ast.AugAssign))]
+        ups = [(st, u) for st, u in ups if u is not None]
+        if len(ups) == 1 and ups[0][1][1] == 'Add' and unparse(ups[0][1][2]) == v_:
+            conds = {c for c in conditions_at(E, ups[0][0]) if c_ in c}
+            rets = [r for r in walk_local(E) if isinstance(r, ast.Return)]
+            ok = conds in ({'%s == 0' % c_}, {'0 == %s' % c_}) and len(rets) == 1 and unparse(rets[0].value) == ups[0][1][0]
     rep.ob('energy-sum', cm, E, 'E = sum of interactvalue[n] for n < Nenergy with clustercount[n] == 0', ok,
            '' if ok else 'energy does not sum exactly the fully occupied interactions of the energy range', engine='flow',
            qual='MonteCarloSampler.E')
